@@ -473,6 +473,15 @@ def httpChildRecord (r : Rec) (item : Info) (s : LinkStep) : Rec :=
 def httpRecordAlong (r : Rec) (u : Info) (path : List LinkStep) : Rec × Info :=
   path.foldl (fun (p : Rec × Info) s => (httpChildRecord p.1 p.2 s, s.child)) (r, u)
 
+/-! ### `ProcessingRule.add_extra_urls` (`--sitemaps`) -/
+
+/-- For a command-line item (`level == 0`) with `--sitemaps`, robots.txt and sitemap.xml of the item's
+origin are queued with `add_child_url`: ordinary (plain) children of the item. -/
+def addExtraUrls (sitemaps : Bool) (r : Rec) (item robotsTxt sitemapXml : Info) : List (Rec × Info) :=
+  if r.level == 0 && sitemaps then
+    [(httpChildRecord r item ⟨false, robotsTxt⟩, robotsTxt), (httpChildRecord r item ⟨false, sitemapXml⟩, sitemapXml)]
+  else []
+
 /-! ### comma separated option values (`AppArgumentParser.comma_list`) -/
 
 /-- `str.isspace()` of one code point (what `str.strip()` removes) -/
